@@ -224,8 +224,23 @@ func (g *genCtx) place() *step {
 	if n > len(hs) {
 		n = len(hs)
 	}
+	peers := append([]uint64(nil), hs[:n]...)
+	if rng.Intn(5) == 0 {
+		// a follower peer on a store id that is not registered (yet): TiKV reports regions of a
+		// store whose PutStore has not reached pd; the id may be registered later in the history
+		var unreg []uint64
+		for _, id := range idPool {
+			if g.prev[id] == nil {
+				unreg = append(unreg, id)
+			}
+		}
+		if len(unreg) > 0 {
+			peers = append(peers, g.one(unreg))
+			g.e.r.Count("placements_on_unregistered_store_id", 1)
+		}
+	}
 	g.md.conf[rid]++
-	return &step{Cmd: "region", Region: rid, Peers: append([]uint64(nil), hs[:n]...), ConfVer: g.md.conf[rid]}
+	return &step{Cmd: "region", Region: rid, Peers: peers, ConfVer: g.md.conf[rid]}
 }
 
 // evacuate takes one peer off store x (moving it to another host when it was the only one).
@@ -316,6 +331,9 @@ func (g *genCtx) progress() *step {
 		}
 		return &step{Cmd: "checkstores"}
 	case len(offFull) > 0 && rng.Intn(3) != 0:
+		if rng.Intn(8) == 0 {
+			return &step{Cmd: "reload"} // the background check after a reload must still see the peers
+		}
 		if rng.Intn(4) == 0 {
 			return &step{Cmd: "checkstores"} // must not bury
 		}
@@ -353,8 +371,10 @@ func (e *env) gen(rng *rand.Rand, prev snap, md *model) *step {
 		return &step{Cmd: "up", ID: pickTarget(rng, ids)}
 	case w < 53:
 		return g.bury(pickTarget(rng, ids))
-	case w < 63:
+	case w < 60:
 		return &step{Cmd: "checkstores"}
+	case w < 63:
+		return &step{Cmd: "reload"}
 	case w < 68:
 		ws := []float64{0, 0.5, 1, 2, 3.5}
 		return &step{Cmd: "weight", ID: pickTarget(rng, ids), LW: ws[rng.Intn(len(ws))], RW: ws[rng.Intn(len(ws))]}
@@ -426,6 +446,8 @@ func (e *env) exec(st *step) {
 		err = e.rc.UpdateStoreLabels(st.ID, cloneLabels(st.Labels), st.Force)
 	case "rmtomb":
 		err = e.rc.RemoveTombStoneRecords()
+	case "reload":
+		err = e.reload()
 	case "storehb":
 		var resp *pdpb.StoreHeartbeatResponse
 		resp, err = e.s.StoreHeartbeat(e.ctx, &pdpb.StoreHeartbeatRequest{Header: e.m.Header(),
@@ -458,4 +480,28 @@ func cloneLabels(in []*metapb.StoreLabel) []*metapb.StoreLabel {
 		out = append(out, &metapb.StoreLabel{Key: l.Key, Value: l.Value})
 	}
 	return out
+}
+
+// reload rebuilds the cluster from the (instrumented) storage the way a pd restart / a change of
+// the pd leader does: the RaftCluster is stopped, the cache is emptied and RaftCluster.Start loads
+// meta, stores and regions back (LoadClusterInfo) and restarts coordinator and background jobs.
+func (e *env) reload() error {
+	e.r.Count("reloads", 1)
+	e.rc.Stop()
+	bc := e.s.GetBasicCluster()
+	for _, rg := range bc.GetRegions() {
+		bc.RemoveRegion(rg)
+	}
+	for _, s := range bc.GetStores() {
+		bc.DeleteStore(s)
+	}
+	if err := e.rc.Start(e.s); err != nil {
+		e.lost = "reload: RaftCluster.Start failed: " + err.Error()
+		return err
+	}
+	if !e.rc.IsRunning() {
+		e.lost = "reload: cluster not running after RaftCluster.Start"
+		return fmt.Errorf("%s", e.lost)
+	}
+	return nil
 }
